@@ -78,6 +78,9 @@ def _needs(act):
         out += ['T:' + tn for tn, _ in act['items']]
     if 'type' in act:
         out.append('T:' + act['type'])
+    if a == 'table_conv':
+        for u1, u2, _f, _o in act['table']:
+            out += ['U:' + u1, 'U:' + u2]
     if a == 'scaled_unit':
         out.append('U:' + act['parent'])
     if a == 'term_unit':
@@ -167,6 +170,37 @@ def gen(seed, run, tier='quick'):
             decl.apply(model, act)
             decls.append(act)
     scenario_probes = []
+    if rng.random() < 0.2:
+        # scenario: a type without reference unit whose units are related
+        # by a table converter given in ONE direction only, with plain int
+        # factor and offset; quotients of two of its quantities are plain
+        # numbers and must not depend on which conversions ran before
+        n = model.fresh()
+        tn = f'T{n}'
+        act = {'a': 'base_type', 'name': tn, 'ref_sym': None,
+               'quantum': None, 'expect': 'accept'}
+        decl.apply(model, act)
+        decls.append(act)
+        us = []
+        for _ in range(rng.choice([2, 3])):
+            n = model.fresh()
+            act = {'a': 'plain_unit', 'type': tn, 'sym': f'u{n}',
+                   'expect': 'accept'}
+            decl.apply(model, act)
+            decls.append(act)
+            us.append(f'u{n}')
+        table = [[us[0], us[1], rng.choice([3, 7, 9, 2]),
+                  rng.choice([32, 5, 0, -4, 1])]]
+        if len(us) > 2 and rng.random() < 0.5:
+            table.append([us[1], us[2], rng.choice([3, 5]),
+                          rng.choice([10, 1])])
+        act = {'a': 'table_conv', 'type': tn, 'table': table,
+               'expect': 'accept'}
+        decl.apply(model, act)
+        decls.append(act)
+        for u1, u2, _f, _o in table:
+            scenario_probes += [('qq/', u1, u2), ('qq/', u2, u1),
+                                ('qu/', u1, u2), ('qq/', u1, u2)]
     if rng.random() < 0.2:
         # scenario: a *quantized* type with a unit whose scale is off the
         # quantum grid, and an operation that is delivered either in that
@@ -701,6 +735,19 @@ def _precondition(model, p):
     form = p['form']
     if form == 'u**f':
         return True         # always the same answer: TypeError
+    if form in ('qq/', 'qu/') and p['s1'] in model.units and \
+            p['s2'] in model.units:
+        t1 = model.units[p['s1']]['type']
+        if t1 == model.units[p['s2']]['type'] and \
+                model.types[t1]['ref'] is None and \
+                model.types[t1]['base'] and not model.types[t1]['money']:
+            # same type without reference unit: a number, if a registered
+            # converter relates the two units (in either direction)
+            if p['s1'] == p['s2']:
+                return True
+            pairs = model.types[t1].get('conv_pairs', [])
+            return (p['s1'], p['s2']) in pairs or \
+                (p['s2'], p['s1']) in pairs
     try:
         if form in ('u**', 'q**'):
             if p['n'] == 0:
